@@ -29,6 +29,17 @@ Proof.
     intros H; (split; [discriminate|]); exists v; auto.
 Qed.
 
+(* for a set built from a text the three layers are: argument, the set's override, some member naming a pre-release *)
+Lemma existsb_ext_in {A} (p q : A -> bool) l : (forall a, In a l -> p a = q a) -> existsb p l = existsb q l.
+Proof. induction l as [|x l IH]; cbn; auto. intros H. rewrite (H x), IH; auto. Qed.
+Theorem text_set_effective s p S arg : SpecifierSet s p = Some S ->
+  set_effective S arg =
+  match arg with Some b => b | None => match p with Some b => b | None => existsb (fun m => auto_pre (m_sp m)) (ms S) end end.
+Proof.
+  intros E. destruct (SpecifierSet_fs_ok s p S E) as (_ & O & F). unfold set_effective. rewrite O. destruct arg; auto. destruct p; auto.
+  rewrite Forall_forall in F. apply existsb_ext_in. intros m Hm. unfold m_pre. now rewrite (F m Hm).
+Qed.
+
 (* ---------------------------------------------------------------- gate / finals / monotonicity : Specifier *)
 Theorem spec_gate sp o arg item c : Version item = Some c -> is_prerelease c = true ->
   contains sp o arg item = Ans true -> spec_effective sp o arg = true.
